@@ -15,6 +15,10 @@
 //     registered for exactly that method: whichever way the client authenticates, only the right verifier redeems.
 //  2. construct cases: issuer strings from a URL grammar through every constructor; reference reading by RFC 3986.
 //  3. discover cases: client.Discover against documents served from an in-memory RoundTripper.
+//  4. entry-point cases (entry.go): the same documents served to every client-side constructor that runs discovery
+//     (relying party, resource server, JWT-profile token source, token exchanger) under several option sets.
+//  5. construction histories (history.go): 2-5 constructions in a row that reuse the application's values (issuer
+//     strategy value, config, storage, option values); every step judged alone.
 package main
 
 import (
@@ -64,12 +68,16 @@ func mandatory(run *ev.Run) {
 	}
 	run.Mandatory("construct-static-accepted:plain-https", "construct-dynamic-rejected:query", "construct-dynamic-rejected:fragment", "construct-dynamic-accepted:plain-path",
 		"discover-rejected-differing", "discover-accepted-equal")
+	for _, e := range entryNames {
+		run.Mandatory("entry-rejected-differing:"+e, "entry-accepted-equal:"+e)
+	}
+	historyMandatory(run)
 }
 
 func main() {
 	log.SetOutput(io.Discard) // the library reports malformed Forwarded headers through the standard logger
 	run := ev.Start("C19", "exploration")
-	run.SetRule("provider case = one freshly built provider (router x 5 config booleans x 8 storage capability subsets x endpoint variant {defaults, custom relative, absolute URL, nil members / multi-setter} x issuer strategy {static, static+path, Host, Host+path, Forwarded, custom forwarded headers}) whose discovery document could be fetched and probed; construct case = (constructor, reference zone, class, insecure opt-in, verdict); discover case = (document variant, well-known override, HTTP status, verdict); distinct = distinct such vectors")
+	run.SetRule("provider case = one freshly built provider (router x 5 config booleans x 8 storage capability subsets x endpoint variant {defaults, custom relative, absolute URL, nil members / multi-setter} x issuer strategy {static, static+path, Host, Host+path, Forwarded, custom forwarded headers}) whose discovery document could be fetched and probed; construct case = (constructor, reference zone, class, insecure opt-in, verdict); discover case = (document variant, well-known override, HTTP status, verdict); entry-point case = (client-side entry point that runs discovery, option set, document variant, HTTP status, verdict); history step = (issuer strategy, issuer source {same value, fresh value of the same string, sibling value, string constructor}, what the history built before, reference zone/class, insecure opt-in, verdict); distinct = distinct such vectors")
 	run.Assume(
 		"op.DefaultEndpoints is re-pointed to a fresh copy of the defaults before every construction (under a lock), so that the shared-defaults defect D14 (judged by C20) cannot leak one case's custom endpoints into another",
 		"a route is served iff the answer to the canonical method is not the router's own '404 page not found'",
@@ -79,13 +87,21 @@ func main() {
 		"grant probing uses a confidential Basic-auth client registered for every grant, known to the storage as service user, with a registered RS256 key; implicit is skipped",
 		"issuer strings: a query made only of '&' and an empty '?' / '#' are grey; schemes other than http/https, userinfo, unusual hosts / ports / paths are grey",
 		"client.Discover: 'differs' is string inequality between the asked issuer and the document's \"issuer\" member (absent / non-string counts as different); documents with duplicate or differently-cased member names are grey; the body 'null' is not generated (defect D17 belongs to C09)",
+		"entry points of the RP-side discovery client: client.Discover, rp.NewRelyingPartyOIDC, rs.NewResourceServerClientCredentials / JWTProfile, profile.NewJWTProfileTokenSource, tokenexchange.NewTokenExchanger(ClientCredentials); 'rejects' = the constructor returns an error (several of them return a typed nil inside a non-nil interface on failure, so the returned value is not looked at); option sets that supply every endpoint statically need no document and are counted, not judged",
+		"construction histories: every step of a history (values of op.StaticIssuer / IssuerFromHost / IssuerFromForwardedOrHost, *op.Config, storage and option values reused across 2-5 constructions) is judged alone with the reference reading and the opt-in of that step; a provider built without WithAllowInsecure that publishes an http issuer in its discovery document counts as 'uses http without the insecure opt-in'; http with the opt-in stays grey",
 		"token exchange probes use the ID token as subject_token (an opaque access token would hit defect D4, which belongs to C09/C15)",
 	)
 	nConstruct := run.N(5000, 20000)
 	nDiscover := run.N(2000, 8000)
+	nEntry := run.N(3000, 12000)
+	nHistory := run.N(1500, 6000)
 
 	if rc := run.ReplayCase(); rc >= 0 {
 		switch {
+		case rc >= caseBaseHistory:
+			historyCase(run, int(rc-caseBaseHistory))
+		case rc >= caseBaseEntry:
+			entryCase(run, int(rc-caseBaseEntry))
 		case rc >= caseBaseDiscover:
 			discoverCase(run, int(rc-caseBaseDiscover))
 		case rc >= caseBaseConstruct:
@@ -99,6 +115,8 @@ func main() {
 
 	ev.Parallel(nConstruct, 0, func(_ int, j int) { constructCase(run, j) })
 	ev.Parallel(nDiscover, 0, func(_ int, k int) { discoverCase(run, k) })
+	ev.Parallel(nEntry, 0, func(_ int, k int) { entryCase(run, k) })
+	ev.Parallel(nHistory, 0, func(_ int, h int) { historyCase(run, h) })
 
 	// thorough: the whole enumeration, three times (every repetition draws other hosts, paths, header shapes, key types);
 	// the case index is rep*nCfg + cell
